@@ -153,8 +153,11 @@ AcAttrs == {"ac_id", "name", "supported_power_controls", "supported_modes", "sup
 BadZoneAttrs(exp, obs) == {f \in ZoneAttrs : ~AttrOK(exp[f], obs[f])}
 BadAcAttrs(exp, obs) ==
   {f \in AcAttrs : ~AttrOK(exp[f], obs[f])}
+  \* the statements fix which zones belong to an AC, not their order: matched by zone id
   \cup (IF Len(exp.zones) # Len(obs.zones) THEN {"zones"}
-        ELSE UNION {BadZoneAttrs(exp.zones[k], obs.zones[k]) : k \in 1..Len(exp.zones)})
+        ELSE UNION {LET m == {j \in 1..Len(obs.zones) : AttrOK(exp.zones[k].zone_id, obs.zones[j].zone_id)}
+                    IN IF m = {} THEN {"zones"} ELSE BadZoneAttrs(exp.zones[k], obs.zones[Min(m)])
+                    : k \in 1..Len(exp.zones)})
 
 SnapshotBad(cs, obs) ==
   LET init == [v |-> cs.phase = "ready"]
@@ -195,7 +198,12 @@ Settle(cs) ==
 Oblige(old, new) ==
   LET acCh(i)  == ~Eq(AcSnapNoZones(old.proto, old.acs[i]), AcSnapNoZones(new.proto, new.acs[i]))
       acSame(i) == Eq(old.acs[i], new.acs[i])
-      zCh(j)   == ~Eq(ZoneSnap(old.proto, old.zones[j]), ZoneSnap(new.proto, new.zones[j]))
+      \* a zone change must be notified only if it shows under both acceptable readings of the record
+      \* (with and without the values the library withholds for a zone without sensor)
+      gk       == IF new.proto = "at4" THEN "GroupStatusMessage" ELSE "ZoneStatusMessage"
+      gz(z)    == IF Eq(z.status, <<>>) THEN z ELSE [z EXCEPT !.status = GateRec(gk, z.status)]
+      zCh(j)   == /\ ~Eq(ZoneSnap(old.proto, old.zones[j]), ZoneSnap(new.proto, new.zones[j]))
+                  /\ ~Eq(ZoneSnap(old.proto, gz(old.zones[j])), ZoneSnap(new.proto, gz(new.zones[j])))
       zSame(j) == Eq(old.zones[j], new.zones[j])
       zonesOf(i) == {j \in 1..Len(new.zones) : \E k \in 1..Len(new.acs[i].zones) : new.acs[i].zones[k] = new.zones[j].id}
       sameShape == Len(old.acs) = Len(new.acs) /\ Len(old.zones) = Len(new.zones)
@@ -272,7 +280,10 @@ RxFrame(cs, ev) ==
 HeartbeatDue(cs) == cs.phase = "ready" /\ cs.now = cs.beatDl /\ ~cs.beaten
 PollDue(cs) == cs.proto = "at4" /\ cs.phase = "ready" /\ cs.now = cs.pollDl /\ ~cs.polled
 
+\* a command whose frame content is undetermined (exp.any) explains a frame only while the call is in
+\* progress; a determined command also explains a later frame (queued while the link was down)
 CmdIdx(cs, alts) == {i \in 1..Len(cs.cmds) : cs.cmds[i].sent = 0 /\ ~Eq(cs.cmds[i].exp.reject, TRUE)
+                                             /\ (~cs.cmds[i].done \/ ~Eq(cs.cmds[i].exp.any, TRUE))
                                              /\ \E a \in 1..Len(alts) : CmdMatches(cs.cmds[i].exp, alts[a])}
 
 TxFrame(cs, ev) ==
@@ -407,7 +418,7 @@ Quiesce(cs0) ==
             ELSE c1
       \* C04/C11: an accepted command has produced its single frame
       c3 == IF cs.up /\ cs.phase = "ready" /\ \E i \in 1..Len(cs.cmds) :
-                   cs.cmds[i].done /\ Eq(cs.cmds[i].exp.reject, FALSE) /\ cs.cmds[i].sent = 0
+                   cs.cmds[i].done /\ Eq(cs.cmds[i].exp.reject, FALSE) /\ ~Eq(cs.cmds[i].exp.any, TRUE) /\ cs.cmds[i].sent = 0
             THEN CV(c2, "CommandNotSent") ELSE c2
       \* C14: refresh after reconnection, error details requested
       c4 == IF cs.up /\ cs.phase = "ready" /\ cs.refresh # <<>> THEN CV(c3, "RefreshMissing") ELSE c3
